@@ -278,6 +278,11 @@ func runC04(r *rec, idx int, seed int64) *hx.Result {
 	} else if err != nil {
 		return fail("C04/parse-error/"+class, fmt.Sprintf("NewEventFromUntrustedJSON refuses the event (room version %s): %v", r.Ver, err), nil, string(wire))
 	}
+	// ---- redacted iff the content hash does not match ---------------------------------------------------------
+	if qe.Redacted() != r.Red {
+		return fail(fmt.Sprintf("C04/redacted-flag/%s:model=%v", class, r.Red),
+			fmt.Sprintf("Redacted() of the parsed event (room version %s, tampering %v, hash %s)", r.Ver, sorted(r.T), r.HM), r.Red, qe.Redacted())
+	}
 	// the batch entry point keeps exactly what the single one hands out
 	kept := gmsl.EventJSONs{append([]byte(nil), wire...)}.UntrustedEvents(gmsl.RoomVersion(r.Ver))
 	if len(kept) != 1 {
@@ -285,11 +290,6 @@ func runC04(r *rec, idx int, seed int64) *hx.Result {
 	}
 	if kept[0].Redacted() != r.Red || !sameJSONBytes(kept[0].JSON(), qe.JSON()) {
 		return fail("C04/UntrustedEvents/differs/"+class, "EventJSONs.UntrustedEvents keeps another event than NewEventFromUntrustedJSON hands out", string(qe.JSON()), string(kept[0].JSON()))
-	}
-	// ---- redacted iff the content hash does not match ---------------------------------------------------------
-	if qe.Redacted() != r.Red {
-		return fail(fmt.Sprintf("C04/redacted-flag/%s:model=%v", class, r.Red),
-			fmt.Sprintf("Redacted() of the parsed event (room version %s, tampering %v, hash %s)", r.Ver, sorted(r.T), r.HM), r.Red, qe.Redacted())
 	}
 	got, err := decodeObj(qe.JSON())
 	if err != nil {
